@@ -280,6 +280,40 @@ def gen_fallthrough_jumpi(rng):
     return body + nxt + tail
 
 
+def gen_loops(rng):
+    """2-5 blocks with EXACT jump targets that form loops and back edges: a block falls through into a jumpdest block and
+    a later block (or the block itself) jumps back to it; forward jumps over blocks; `jumpi` whose two routes go to
+    different / the same block; unconditional jumps whose only feasible destination is one particular block — so that a
+    missing edge leaves a block without successor or an execution without edge"""
+    k = rng.choice([2, 3, 3, 4, 5])
+    plan = []
+    for i in range(k):
+        jd = (i > 0 and rng.random() < 0.9) or (i == 0 and rng.random() < 0.3)
+        body = rng.randrange(0, 3)
+        term = rng.choice(["fall", "fall", "jump", "jump", "jump", "jumpi", "jumpi", "halt"]) if i < k - 1 else rng.choice(["jump", "jump", "jumpi", "halt", "fall"])
+        plan.append([jd, body, term])
+    size = lambda b: (1 if b[0] else 0) + 3 * b[1] + {"fall": 0, "jump": 3, "jumpi": 5, "halt": 1}[b[2]]
+    offs, o = [], 0
+    for b in plan:
+        offs.append(o); o += size(b)
+    jds = [offs[i] for i in range(k) if plan[i][0]] or [0]
+    out = bytearray()
+    for i, (jd, body, term) in enumerate(plan):
+        if jd: out.append(0x5b)
+        for _ in range(body):
+            out += bytes([0x60, rng.randrange(256), 0x50])
+        # mostly a real jumpdest block (earlier ones preferred: back edges), sometimes a non-jumpdest offset
+        back = [x for x in jds if x <= offs[i]]
+        tgt = rng.choice(back) if back and rng.random() < 0.6 else rng.choice(jds) if rng.random() < 0.9 else rng.choice([1, o, offs[i] + 1])
+        if term == "jump":
+            out += bytes([0x60, tgt & 0xff, 0x56])
+        elif term == "jumpi":
+            out += bytes([0x60, rng.choice([0, 1, 1, 2, 255]), 0x60, tgt & 0xff, 0x57])
+        elif term == "halt":
+            out.append(rng.choice([0x00, 0xf3, 0xfd, 0xfe]))
+    return bytes(out)
+
+
 def gen_double_read(rng):
     """two reads of the same state-dependent quantity (same argument) feeding a comparison that decides a branch or a
     jump target: the machine state may change between the reads (a call in between), so they need not be equal"""
